@@ -44,7 +44,7 @@ BOX = [[a, b] for a in range(4) for b in range(4)]
 
 GEN = {'pure': True, 'tracer': False, 'try': False, 'with': False, 'del': False, 'unbound_reads': False, 'lambdas': False,
        'globals': False, 'nonlocals': False, 'iterators': False, 'helpers': 0, 'init_all': True, 'def_extras': 0,
-       'excl': ('no_for_target_rebind', 'no_try_else', 'no_impure_chain_middle', 'no_all_branch_rebind_in_nested_block')}
+       'excl': ('no_for_target_rebind', 'no_impure_chain_middle', 'no_all_branch_rebind_in_nested_block')}
 
 
 def budget(tier):
